@@ -24,6 +24,7 @@ func init() {
 	registry["C08"] = func(c *Ctx) { genCore(c, "C08") }
 	registry["C14"] = func(c *Ctx) { genCore(c, "C14") }
 	registry["C06core"] = func(c *Ctx) { genCore(c, "C06") }
+	registry["C12core"] = func(c *Ctx) { genCore(c, "C12") }
 	registry["CORESRC"] = coreOne
 }
 
@@ -154,11 +155,63 @@ var orderProbes = []struct{ src, want string }{
 	{"t(1).{|x| t(2)}", "1 2"},
 	{"(t(1) if t(2) else t(3))", "2 1"},
 	{"{|kx: t(1), ky: t(2), kz: t(3), kw: t(4)| 0}", "1 2 3 4"},
+	{"nil&.foo(t(1), kx: t(2))", "1 2"},
+	{"nil&.foo(t(1))&.bar(t(2))", "1 2"},
+	{"[nil, 3]&@+(t(1))", "1"},
+	{"5~.nope(t(1), t(2))", "1 2"},
+	{"\"#{<>}|#{<>}|#{<>}\".p", "in1|in2|in3"},
+	{"[<>.S, <>.S, t(1), <>.S].p", "1 [\"in1\", \"in2\", 1, \"in3\"]"},
+	{"f(<>.S.p, kx: <>.S.p, <>.S.p)", "in1 in2 in3"},
+	{"{ka: <>.S, kb: <>.S}.p", "{\"ka\": \"in1\", \"kb\": \"in2\"}"},
+	{"(<>.S + <>.S + <>.S).p", "in1in2in3"},
+	{"f(t(1),\n                kx: t(2),\n  ky: t(3), kz: t(4))", "1 2 3 4"},
+	{"f(kx: t(1), ky: t(2),\n kz: t(3))", "1 2 3"},
+	{"f(                    kx: t(1),\n kx: t(2),\n        ky: t(3))", "1 2 3"},
+	{"({|kx: 0, ky: 0| [kx, ky]}(          kx: 1,\n kx: 2,\n   ky: 3)).p", "[1, 3]"},
+	{"{|kx: t(1),\n ky: t(2),\n     kz: t(3)| 0}", "1 2 3"},
 	{"g := {|x, y| [x, y]}\n1.^g(t(8))", "8"},
 	{"g := {|x, y| [x, y]}\nt(1).^g", "1"},
 }
 
+// condProbes: model-free expectations for nested conditionals (also independent of how the parser groups them:
+// every nesting is written with parentheses). t(k) prints k and returns it; 0 is falsy, the others truthy.
+var condProbes = []struct{ src, want string }{
+	{"((t(1) if t(2) else t(3)) if t(0) else t(4)).p", "0 4 4"},
+	{"((t(1) if t(2) else t(3)) if t(5) else t(4)).p", "5 2 1 1"},
+	{"((t(1) if t(0) else t(3)) if t(5) else t(4)).p", "5 0 3 3"},
+	{"(t(1) if t(2) else (t(3) if t(0) else t(4))).p", "2 1 1"},
+	{"(t(1) if t(0) else (t(3) if t(0) else t(4))).p", "0 0 4 4"},
+	{"(t(1) if (t(2) if t(0) else t(0)) else t(3)).p", "0 0 3 3"},
+	{"((t(1) && t(0)) || t(3)).p", "1 0 3 3"},
+	{"((t(0) && t(2)) || t(3)).p", "0 3 3"},
+	{"((t(1) || t(2)) && t(3)).p", "1 3 3"},
+	{"((t(0) || t(0)) && t(3)).p", "0 0 0"},
+	{"(t(1) && (t(0) || t(3))).p", "1 0 3 3"},
+	{"(t(0) || (t(2) && t(0))).p", "0 2 0 0"},
+	{"(t(1) || (t(2) && t(3))).p", "1 1"},
+	{"(((t(1) && t(2)) && t(0)) || t(4)).p", "1 2 0 4 4"},
+	{"(!(t(0) || t(0)) && t(5)).p", "0 0 5 5"},
+	{"((t(1) if t(0)) || t(2)).p", "0 2 2"},
+	{"({|| return t(1) if (t(0) || t(2)); t(3)}()).p", "0 2 1 1"},
+	{"({|| return t(1) if (t(2) && t(0)); t(3)}()).p", "2 0 3 3"},
+}
+
 func genCore(c *Ctx, mode string) {
+	if mode == "C12" {
+		for i, pr := range condProbes {
+			if c.Shards > 1 && i%c.Shards != c.Shard {
+				continue
+			}
+			src := "t := {|v| v.p; v}\n" + pr.src + "\n"
+			o := coreRun(src)
+			got := strings.Join(strings.Fields(o.Stdout), " ")
+			rec := Rec{Src: src, Impl: got, NT: true, Tags: []string{"cond-probe"}}
+			if got != pr.want || o.Kind != "val" {
+				rec.Oracle = fmt.Sprintf("operands evaluated / result [%s] (%s %s), the property states [%s]", got, o.Kind, o.ErrMsg, pr.want)
+			}
+			c.Em.Emit(rec)
+		}
+	}
 	if mode == "C08" {
 		for i, pr := range orderProbes {
 			if c.Shards > 1 && i%c.Shards != c.Shard {
@@ -189,17 +242,17 @@ func genCore(c *Ctx, mode string) {
 			c.Em.Emit(rec)
 		}
 	}
-	n := map[string]int{"C03": 2000, "C07": 300, "C08": 800, "C14": 1500, "C06": 1200}[mode]
+	n := map[string]int{"C03": 2000, "C07": 300, "C08": 800, "C14": 1500, "C06": 1200, "C12": 1500}[mode]
 	if c.Thorough() {
 		n *= 10
 	}
-	bias := map[string]byte{"C03": 'F', "C07": 0, "C08": 'E', "C14": 'T', "C06": 'K'}[mode]
+	bias := map[string]byte{"C03": 'F', "C07": 0, "C08": 'E', "C14": 'T', "C06": 'K', "C12": 'C'}[mode]
 	for i := 0; i < n; i++ {
 		root, feat := genCoreProgram(c.Rng, 2+c.Rng.Intn(2), bias)
 		tags := append(featTags(feat), "plain")
 		src := root.text()
 		switch mode {
-		case "C03", "C14", "C06":
+		case "C03", "C14", "C06", "C12":
 			if !c.Mine() {
 				continue
 			}
@@ -257,6 +310,9 @@ func genCore(c *Ctx, mode string) {
 					continue
 				}
 				inj := coreInjections[c.Rng.Intn(len(coreInjections))]
+				if node.pos == "pair-key" && inj.kind == "NameErr" {
+					inj = coreInjections[0] // `{(name): v}` is the identifier-key sugar: a bare name does not raise there
+				}
 				if !c.Mine() {
 					continue
 				}
